@@ -346,7 +346,7 @@ pub fn huge_case() -> TruthCase {
                 frames: 932_068 * 16,
                 seed: 1,
                 chans: vec![ChanRecipe { kind: Kind::Const { which: 0 }, wasted: 0, relation: 0 }],
-                seg: 0,
+                seg: 0, ms_mix: 0,
             },
             opts: o,
             front: Front::Samples,
